@@ -76,6 +76,10 @@ CLAIMS = {
         text="Generated well-formed client messages of every type with every optional part present/absent and insignificant whitespace at every structural position must pass the relay's admission composition (utf8/json valid, ParseClientMsg, ValidClientMsg); every single-point corruption that is admitted must decode to a value satisfying all NIP-01 constraints, checked on the value. Exhaustive over the generator's product.",
         note="Trusted: the independent well-formedness predicate in checks/c11/wf.go. Unclaimed: JSON null for objects, exponent spellings, since>until, subscription-id length, U+000C.",
         technique=ENUM_TECH, design="DESIGN.md §4 C11"),
+    "C17": dict(engine="vsched", category="model_checking",
+        text="Each of 10 limit middlewares x limit L x probe message (kind x size 0..L+2, including 'absent' and 'only the second filter offends') between bystander messages, around a recording stub that also emits all seven server message types: all schedules; all ordered pairs of two middlewares on a 7-message script: all schedules; the NIP-11 chain for all 128 subsets of the seven limits plus nil document and a document without limitation block on a 14-message script (unbounded for chains of depth <= 1, delay-bounded for deeper ones). Oracle: forwarded unchanged (pointer-identical) iff within the limit, else exactly one rejection of the right type and nothing forwarded; bystanders and server messages unchanged and in order; identity when nothing is set.",
+        note="created_at windows are judged against a virtual clock and claimed only at >= 2 s from the boundary; an over-long CLOSE id is unclaimed.",
+        technique=E1_TECH, design="DESIGN.md §4 C17"),
     "C20": dict(engine="seqx", category="exploration",
         text="Product of Upgrade/Accept/method/path/mux configurations through ServeMux.ServeHTTP on a ResponseRecorder (relay path recognised by equality with Relay.ServeHTTP's own answer), and NIP-11 documents (2^16 present/absent product plus targeted structured values; kind ranges as numbers and pairs) through Marshal/Unmarshal and the HTTP handlers.",
         note="Accept values that merely contain the media type or differ in case are unclaimed; headers are claimed only when a document is configured.",
